@@ -283,7 +283,7 @@ func (f *fnSpec) buildBuilt(extra ...am.Arg) error {
 			if l.Name != "" {
 				dst = out.Named(strings.ToLower(l.Name))
 			} else {
-				dst = out.TypedSubtype(tyOf(l.Ty), l.Sub)
+				dst = out.Typed(tyOf(l.Ty)) // type-only outputs are unique per type (well-formedness)
 			}
 			if dst != nil {
 				dst.Value = vals[j]
